@@ -8,7 +8,7 @@ BIGOPS = ['\\sum', '\\int', '\\prod', '\\lim']
 DELIMS = [('(', ')'), ('[', ']'), ('\\{', '\\}'), ('|', '|'), ('.', ')'), ('\\langle', '\\rangle')]
 
 # user macros: name -> (nargs, body template)
-MACROS = {'zqm': (1, '\\alpha_{#1}'), 'zqv': (0, '\\vec{v}'), 'zqf': (2, '\\frac{#1}{#2}+1'), 'zqs': (1, '{#1}^{2}')}
+MACROS = {'zqm': (1, '\\alpha_{#1}'), 'zqv': (0, '\\vec{v}'), 'zqf': (2, '\\frac{#1}{#2}+1'), 'zqs': (1, '{#1}^{2}'), 'zqe': (0, '\\varepsilon')}
 
 
 def preamble():
@@ -66,6 +66,25 @@ class MathGen(object):
         d = depth - 1
         if k < 0.25:
             return self.atom()
+        if k < 0.29 and self.macros:
+            # a one-token user macro as an unbraced argument (TeX takes the single token, then expands it in place)
+            self.features.add('user-macro-unbraced-argument')
+            form = r.choice(['sup', 'sub', 'frac1', 'frac2', 'sqrt', 'accent'])
+            b = r.choice('abxyn')
+            t = r.choice('2kn')
+            W, E = '\\zqe ', '\\varepsilon '
+            if form == 'sup':
+                return b + '^' + W, b + '^' + E
+            if form == 'sub':
+                return b + '_' + W, b + '_' + E
+            if form == 'frac1':
+                return '\\frac' + W + t + ' ', '\\frac' + E + t + ' '
+            if form == 'frac2':
+                return '\\frac ' + b + W, '\\frac ' + b + E
+            if form == 'sqrt':
+                return '\\sqrt' + W, '\\sqrt' + E
+            c = r.choice(ACCENTS)
+            return '\\%s' % c + W, '\\%s' % c + E
         if k < 0.4:
             self.features.add('script')
             bw, be = self.atom() if r.random() < 0.7 else self.braced(d)
